@@ -169,6 +169,15 @@ impl Monitor for C08 {
                         cx.summary.count("c08.acks_timed", 1);
                         cx.summary.max("c08.max_ack_latency_us", lat as i64);
                         let bound = mad + 2 * GRANULARITY_US;
+                        if ooo {
+                            // measured only: how quickly are packets that arrive out of order
+                            // acknowledged (RFC 9000 13.2.1: SHOULD be immediate)
+                            cx.summary.count("c08.out_of_order_acks_timed", 1);
+                            if lat > 2 * GRANULARITY_US {
+                                cx.summary.count("c08.out_of_order_ack_not_immediate", 1);
+                                cx.summary.max("c08.out_of_order_ack_max_us", lat as i64);
+                            }
+                        }
                         if lat > bound {
                             // attribute the lateness
                             let mut cause = "unexplained";
